@@ -52,6 +52,8 @@ pub struct Profile {
     pub slow_apply_pm: u64,
     /// per-run probability of a membership-heavy workload (5x the membership weight, bursts, slow appliers)
     pub conf_heavy_pm: u64,
+    /// after a compaction: what-if mutation sequence on a scratch copy of the node's storage (C19)
+    pub storage_exercise_pm: u64,
     pub slow_msg_pm: u64,
     pub fifo_pm: u64,
     /// client op weights
@@ -120,6 +122,7 @@ impl Profile {
             conf_burst_pm: 150,
             slow_apply_pm: 100,
             conf_heavy_pm: 300,
+            storage_exercise_pm: 0,
             slow_msg_pm: 60,
             fifo_pm: 300,
             w_propose: 60,
@@ -416,6 +419,7 @@ impl<'a> Driver<'a> {
             | Action::ReportUnreachable { n, .. }
             | Action::ReportSnapshot { n, .. }
             | Action::Compact { n, .. }
+            | Action::StorageExercise { n, .. }
             | Action::SetKnob { n, .. }
             | Action::EntriesFetched { n }
             | Action::Restart { n }
@@ -793,6 +797,10 @@ impl<'a> Driver<'a> {
                 if let Some(n) = self.random_running() {
                     let back = if self.rng.pm(500) { 0 } else { self.rng.range(1, 8) };
                     self.act(Action::Compact { n, back })?;
+                    if self.rng.pm(self.p.storage_exercise_pm) {
+                        let seed = self.rng.next_u64();
+                        self.act(Action::StorageExercise { n, seed })?;
+                    }
                 }
             }
             5 => {
@@ -1078,6 +1086,9 @@ impl<'a> Driver<'a> {
         };
         let minority: Vec<NodeId> = ids.iter().filter(|n| !maj.contains(n) && self.world.nodes[n].started).cloned().collect();
         let rounds = self.rng.range(30, 120);
+        // in half of the runs the cluster is idle during the phase: the minority's logs stay up to date, so only
+        // the lease (not the log check) stands between its (pre-)vote requests and a grant
+        let idle = self.rng.pm(500);
         for _ in 0..rounds {
             self.act(Action::Lockstep { majority: maj.clone() })?;
             if self.world.lockstep.is_none() {
@@ -1121,7 +1132,7 @@ impl<'a> Driver<'a> {
                     } else {
                         self.act(Action::Restart { n })?;
                     }
-                } else {
+                } else if !idle {
                     let id = self.next_id;
                     self.next_id += 1;
                     self.act(Action::Propose { n: leader, id, size: 12 })?;
